@@ -246,3 +246,76 @@ DRIVERS = [
     Driver('C05/B8.footprint', cases_footprint, oracle_footprint, nchunks=4, prop='C05',
            rule='3000 (quick) / 12000 (thorough) evaluations of the same cells; tracemalloc growth between the 2nd and 3rd third', bound='see rule'),
 ]
+
+
+# ---- seeded random models and histories -----------------------------------------------------------------------------------------------------
+def cases_random(tier, seed):
+    rng = random.Random(seed * 17 + 4)
+    n = 25 if tier == 'quick' else 4000
+    for i in range(n):
+        yield dict(mseed=seed * 100000 + i, hseed=rng.randrange(10 ** 9), steps=rng.randrange(3, 10))
+
+
+def oracle_random(c):
+    """random acyclic model (drivers/gen_models.py), random history of set (by address / through a name / first value of a hole)
+    and evaluate (two evaluators): every evaluate equals a freshly built model holding the current inputs"""
+    import xlcalculator
+    from drivers.common import build_model, observe
+    from drivers.gen_models import gen_model
+    m = gen_model(c['mseed'])
+    rng = random.Random(c['hseed'])
+    cells = dict(m['cells'])
+    model = build_model(dict(cells), m['names'] or None)
+    evs = [xlcalculator.Evaluator(model), xlcalculator.Evaluator(model)]
+    names = {n: t.replace('$', '').replace("'", '') for n, t in m['names'].items() if ':' not in t}
+    formulas = [a for a, v in cells.items() if isinstance(v, str) and v.startswith('=')]
+    consts = [a for a in cells if a not in formulas]
+    cells_before = set(model.cells)
+
+    def fresh(addr):
+        mod = build_model(dict(cells), m['names'] or None)
+        try:
+            return observe(xlcalculator.Evaluator(mod).evaluate(addr))
+        except Exception as ex:      # noqa
+            return ('raise', type(ex).__name__)
+    for step in range(c['steps']):
+        r = rng.random()
+        try:
+            if r < 0.4 and consts:
+                a = rng.choice(consts)
+                v = rng.choice([5, 7.5, 0, -2, 'txt', True, 1e6])
+                how = a
+                rev = [n for n, t in names.items() if t == a and n in model.defined_names]
+                if rev and rng.random() < 0.5:
+                    how = rev[0]
+                evs[rng.randrange(2)].set_cell_value(how, v)
+                cells[a] = v
+                got = model.cells[a].value
+                if got != v or type(got) is not type(v):
+                    return False, f'step {step}: after set_cell_value({how!r}, {v!r}) the cell {a} holds the value', repr(got)
+            else:
+                a = rng.choice(formulas + consts[:2])
+                exp = fresh(a)
+                try:
+                    obs = observe(evs[rng.randrange(2)].evaluate(a))
+                except Exception as ex:      # noqa
+                    obs = ('raise', type(ex).__name__)
+                if not _same(obs, exp):
+                    return False, f'step {step}: evaluate({a}) == fresh model {exp}', obs
+                if a in formulas and obs[0] != 'raise':
+                    stored = observe(model.cells[a].value)
+                    if not _same(stored, exp):
+                        return False, f'step {step}: stored value of {a} == {exp}', stored
+        except Exception as ex:      # noqa
+            return False, f'step {step} completes', f'raise {type(ex).__name__}: {str(ex)[:150]}'
+    if set(model.cells) != cells_before:
+        return False, 'set of cells unchanged', sorted(set(model.cells) ^ cells_before)
+    for a in formulas:
+        if model.cells[a].formula.formula != cells[a]:
+            return False, f'formula text of {a} unchanged', model.cells[a].formula.formula
+    return True, 'history consistent with fresh models', 'ok'
+
+
+DRIVERS.append(Driver('C04/B8.random-models', cases_random, oracle_random, nchunks=8,
+                      rule='seeded random acyclic models (1-3 sheets incl. a quoted one, constants of every type with holes, formulas over cells / ranges / names) x random histories of 3-9 steps (set an input to a value of any type by address or through its name; evaluate a random cell on one of two evaluators): every evaluate and stored value equals a freshly built model with the current inputs; cells and formula texts unchanged',
+                      bound='25 (quick) / 4000 (thorough) model-history pairs'))
